@@ -1110,6 +1110,8 @@ class Line:
         self.file = file
         self.number = number
         self.contents = contents
+        # for include_bytes lines: the file found by the reader's include search
+        self.include_path = None
 
     def __len__(self):
         return len(self.contents)
@@ -2175,6 +2177,8 @@ def read_lines(path_or_source, *, include=False, include_dirs=None):
 
             # modify the line by appending the size to the end (too hacky?)
             line.contents = '{} {}'.format(raw_line, size)
+            # remember which file was found: that is the one to embed, wherever the assembler runs from
+            line.include_path = include_path
             lines.append(line)
         else:
             lines.append(line)
@@ -2295,6 +2299,9 @@ def parse_item(line_tokens):
             raise AssemblerError('include_bytes must specify a file', line)
         _, path, size = tokens
         size = int(size, base=0)
+        # embed the file the include search found (not the path as written, relative to the cwd)
+        if line.include_path is not None:
+            path = line.include_path
         return IncludeBytes(line, path, size)
     # strings
     elif head == 'string':
